@@ -5,7 +5,7 @@
 P=$(readlink -f "$1"); ID=$2; TIER=${3:-quick}
 D=$(mktemp -d /tmp/vmut.XXXXXX)
 cp /repo/cJSON.c /repo/cJSON.h /repo/cJSON_Utils.c /repo/cJSON_Utils.h $D/
-( cd $D && git init -q . && git apply --unsafe-paths "$P" ) || { echo "patch does not apply"; rm -rf $D; exit 2; }
+( cd $D && git init -q . && ( git apply --unsafe-paths "$P" 2>/dev/null || patch -s -p1 --fuzz=3 < "$P" ) ) || { echo "patch does not apply"; rm -rf $D; exit 2; }
 OUT=$(cd /verif && VERIF_REPO=$D ./tools/check $ID $TIER 2>&1); RC=$?
 echo "$OUT" | grep -E "^VIOLATION|^check:|^KNOWN" | head -${MUT_LINES:-4}
 rm -rf $D /verif/out/$ID/obj-* /verif/out/$ID/vdrv-*
